@@ -129,12 +129,43 @@ func genErsWorld(r *rand.Rand, now time.Time) *ersWorld {
 	b := newERS("foo-b", tplOf(2), now.Add(-20*time.Minute))
 	w.ers = []*edsv1.ExtendedDaemonSetReplicaSet{a, b}
 	if r.Intn(4) == 0 {
+		// replica sets keep the copy of the ExtendedDaemonSet's annotations made at their creation: the
+		// user switches as they were then, possibly removed or flipped since
+		for _, e := range w.ers {
+			for _, k := range []string{edsv1.ExtendedDaemonSetRollingUpdatePausedAnnotationKey, edsv1.ExtendedDaemonSetRolloutFrozenAnnotationKey,
+				edsv1.ExtendedDaemonSetCanaryPausedAnnotationKey, edsv1.ExtendedDaemonSetCanaryUnpausedAnnotationKey} {
+				if v, ok := genAnnotValue(r); ok && r.Intn(2) == 0 {
+					e.Annotations[k] = v
+				}
+			}
+		}
+		w.cat = append(w.cat, "ers-carries-old-switches")
+	}
+	if r.Intn(4) == 0 {
 		w.ers = append(w.ers, newERS("foo-c", tplOf(3), now.Add(-3*time.Hour)))
 	}
 	nn := 1 + r.Intn(5)
 	rich := r.Intn(3) == 0
 	for k := 0; k < nn; k++ {
 		w.nodes = append(w.nodes, genNode(r, fmt.Sprintf("n%d", k), rich))
+	}
+	if r.Intn(3) == 0 {
+		// per-node resource overrides (well-formed, malformed, for other containers), plus overrides
+		// addressed to neighbours (another name in this namespace, the same name in another namespace):
+		// the pods below are built from them, so their node hash is the right one unless changed later
+		w.cat = append(w.cat, "node-overrides")
+		for _, n := range w.nodes {
+			if r.Intn(3) == 0 {
+				continue
+			}
+			n.Annotations = genOverrideAnnotations(r)
+			if r.Intn(2) == 0 {
+				n.Annotations[overrideKey(testNS, "bar", "main")] = pick(r, `{"limits":{"cpu":"2"}}`, `{"limits":{"cpu":"7"}}`)
+			}
+			if r.Intn(2) == 0 {
+				n.Annotations[overrideKey("ns2", testEDS, "main")] = `{"limits":{"cpu":"3"}}`
+			}
+		}
 	}
 	eds.Status.ActiveReplicaSet = pick(r, "foo-a", "foo-a", "foo-b", "", "foo-a")
 	if eds.Spec.Strategy.Canary != nil && eds.Status.ActiveReplicaSet == "foo-a" && r.Intn(2) == 0 {
@@ -263,6 +294,15 @@ func genErsWorld(r *rand.Rand, now time.Time) *ersWorld {
 				w.pods = append(w.pods, p)
 			}
 		}
+	}
+	if len(w.nodes) > 0 && r.Intn(6) == 0 {
+		// a node's override changed after its pod was created: that pod is out of date
+		n := w.nodes[r.Intn(len(w.nodes))]
+		if n.Annotations == nil {
+			n.Annotations = map[string]string{}
+		}
+		n.Annotations[overrideKey(testNS, testEDS, "main")] = pick(r, `{"limits":{"cpu":"4"}}`, `{"requests":{"cpu":"100m"}}`)
+		w.cat = append(w.cat, "node-override-changed")
 	}
 	w.eds = eds
 	if len(w.dss) > 0 {
@@ -393,6 +433,14 @@ func streamErsReconcile(r *rand.Rand, i int, tier string) *Case {
 		})
 		sw.use(cl)
 	}
+	neighbour := failAt == nil && r.Intn(5) == 0
+	if neighbour {
+		// the same process has just synced the replica set of a neighbour on the same nodes — another
+		// name in this namespace, or the same name in another namespace (its writes go to a scratch
+		// copy of the world).  Nothing computed for the neighbour may be served to this one.
+		neighbourWarmup(r, rec, sw, objs, now)
+		sw.use(cl)
+	}
 	in := ersInput(cl, testNS, testEDS, target.Name, aff, rec)
 	statusConflict := failAt != nil && failAt[-2] == "conflict"
 	out, nowC := runErsReconcile(rec, cl, wl, testNS, testEDS, target.Name)
@@ -414,6 +462,9 @@ func streamErsReconcile(r *rand.Rand, i int, tier string) *Case {
 	cat := w.cat
 	if warm {
 		cat = append(cat, "warm-reconciler")
+	}
+	if neighbour {
+		cat = append(cat, "neighbour-synced-first")
 	}
 	if failAt != nil {
 		in["faulted"] = true
